@@ -28,6 +28,9 @@ def main():
         if not os.path.exists(mp):
             continue
         meta = json.load(open(mp))
+        if os.path.basename(d).startswith("X"):
+            out.append("| %s | %s | %s | **MISSED** (out of reach: see history) |" % (os.path.basename(d), meta["breaks_property"], meta["needs_to_manifest"].replace("|", "/")))
+            continue
         if os.path.basename(d).startswith("N"):
             out.append("| %s | none (reclassified: %s) | %s | not an alarm |" % (os.path.basename(d), meta.get("breaks_property_claimed"), meta["needs_to_manifest"].replace("|", "/")))
             continue
